@@ -43,6 +43,14 @@ pub fn property() -> Property {
                 replay: |v| replay_case::<ListCase, _>(v, check_list),
             },
             Part {
+                name: "engine_position",
+                quick: 600,
+                thorough: 20_000,
+                single_shard: false, supplementary: false,
+                run: |cfg| run_part(cfg, (gen::raw_playout(24), any::<u16>(), any::<u16>(), 0..6u8, 0..8u8), |(r, cut, pick, kind, bad)| engine_pos_case(r, *cut, *pick, *kind, *bad), check_engine_position),
+                replay: |v| replay_case::<EnginePosCase, _>(v, check_engine_position),
+            },
+            Part {
                 name: "stateful",
                 quick: 10_000,
                 thorough: 150_000,
@@ -391,5 +399,108 @@ pub fn check_stateful(c: &StatefulCase, ctx: &mut Ctx) -> Result<(), String> {
         }
     }
     ctx.sample(|| serde_json::json!({"fen": c.fen, "trace": trace}));
+    Ok(())
+}
+
+// ------------------------------------------------------------------------------------------------
+// the caller named by the property: the engine's `position` command replays a move list all-or-nothing
+
+#[derive(Debug, Clone, Serialize, Deserialize)]
+pub struct EnginePosCase {
+    pub fen: String,
+    pub first: Vec<String>,
+    pub second: Vec<String>,
+    pub search_between: bool,
+    pub new_game_between: bool,
+}
+
+fn engine_pos_case(r: &gen::RawPlayout, cut: u16, pick: u16, kind: u8, bad: u8) -> EnginePosCase {
+    let g = gen::play(r, ClockDomain::Engine);
+    let all: Vec<String> = g.moves.iter().map(Mv::uci).collect();
+    let k = gen::pick(cut as u32, 16, all.len() + 1);
+    let first: Vec<String> = all[..k].to_vec();
+    let second: Vec<String> = match kind {
+        // extends the first list by legal moves and then a faulty one (and possibly more)
+        0 | 1 | 2 => {
+            let j = k + gen::pick(pick as u32, 16, all.len() - k + 1);
+            let mut v = all[..j].to_vec();
+            v.push(bad_move_for(&g.positions[j], pick, bad % 7));
+            if pick % 2 == 0 && j < all.len() {
+                v.push(all[j].clone());
+            }
+            v
+        }
+        // an unrelated list failing at a generated index
+        3 => {
+            let j = gen::pick(pick as u32, 16, all.len() + 1);
+            let mut v = all[..j].to_vec();
+            v.push(bad_move_for(&g.positions[j], pick, bad % 7));
+            v
+        }
+        // a fully legal extension
+        4 => all.clone(),
+        // a fully legal shorter list
+        _ => all[..gen::pick(pick as u32, 16, k + 1)].to_vec(),
+    };
+    // well-formed move texts only (the GUI line must parse; legality is the engine's business)
+    let second: Vec<String> = second.into_iter().map(|m| if Mv::parse(&m).is_some() { m } else { "a1a1".to_string() }).collect();
+    EnginePosCase { fen: g.start.fen(), first, second, search_between: pick % 3 == 0, new_game_between: pick % 5 == 0 }
+}
+
+pub fn check_engine_position(c: &EnginePosCase, ctx: &mut Ctx) -> Result<(), String> {
+    use crate::engsess::{GoSpec, Session, Wait};
+    let start = Pos::from_fen(&c.fen).ok_or_else(|| format!("HARNESS: bad fen {}", c.fen))?;
+    let replay = |list: &[String]| -> Option<Pos> {
+        let mut p = start.clone();
+        for t in list {
+            let m = Mv::parse(t).filter(|m| m.uci() == *t && p.is_legal(*m))?;
+            p = p.apply(m);
+        }
+        Some(p)
+    };
+    let after_first = replay(&c.first).ok_or_else(|| "HARNESS: first list not legal".to_string())?;
+    let after_second = replay(&c.second);
+    let expected = after_second.clone().unwrap_or_else(|| after_first.clone());
+    let mut s = Session::new();
+    s.position(&c.fen, &c.first)?;
+    if c.search_between {
+        if !matches!(s.search(&GoSpec::depth(1)), Wait::Done(_)) {
+            return Err(format!("no answer to go depth 1 after position fen {} moves {:?}", c.fen, c.first));
+        }
+    }
+    if c.new_game_between {
+        s.new_game();
+    }
+    s.position(&c.fen, &c.second)?;
+    let what = format!("position fen {} moves {:?}, then position (same fen) moves {:?} ({})", c.fen, c.first, c.second, if after_second.is_some() { "all legal" } else { "contains a move that is not legal: must be rejected as a whole" });
+    let held = s.dump_fen().ok_or_else(|| format!("{what}: search thread gone"))?;
+    let want = eng::eng_fen(&eng::board_from_pos(&expected));
+    if held != want {
+        return Err(format!("{what}: the engine now holds {held}, expected {want}"));
+    }
+    match s.search(&GoSpec::depth(1)) {
+        Wait::Done(o) => {
+            let legal: Vec<String> = expected.legal_moves().iter().map(Mv::uci).collect();
+            match o.best_uci() {
+                Some(m) if !legal.contains(&m) => return Err(format!("{what}: go depth 1 answers {m}, illegal in {want}")),
+                None if !legal.is_empty() => return Err(format!("{what}: go depth 1 answers 0000")),
+                _ => {}
+            }
+        }
+        Wait::ThreadDied(w) => return Err(format!("{what}: {w}")),
+        Wait::Timeout => return Err(format!("HARNESS: watchdog at {what}")),
+    }
+    s.quit().map_err(|e| format!("{what}: {e}"))?;
+    let class = match (&after_second, c.second.len() > c.first.len() && c.second[..c.first.len()] == c.first[..]) {
+        (None, true) => "rejected_extension_of_held_line",
+        (None, false) => "rejected_other_line",
+        (Some(_), true) => "accepted_extension",
+        (Some(_), false) => "accepted_other_line",
+    };
+    ctx.class(class);
+    if after_second.is_none() {
+        ctx.nontrivial((c.fen.clone(), c.first.clone(), c.second.clone()));
+    }
+    ctx.sample(|| serde_json::json!({"fen": c.fen, "first": c.first, "second": c.second, "class": class}));
     Ok(())
 }
